@@ -155,6 +155,12 @@ func Build(id, tier string, seed int64) (*BehavCheck, error) {
 	case "C01":
 		c.Classes = exec.Classes{Reads: true}
 		c.Nontrivial = func(b *model.Behaviour) bool { return hasOps(b, "set", "save") }
+		c.PostRun = func(ev *Evidence) ([]string, []string, error) {
+			// reads and iteration after a rollback / index rebuild that crosses several 1024-key chunks
+			return runScenarios(id, seed, ev, map[string]func() string{
+				"chunked-rollback/mem/flush150": allScenarios["chunked-rollback/mem/flush150"],
+			}), nil, nil
+		}
 		c.Rule = "behaviours generated by tlc -simulate from Iavl.tla (action class chosen at random per step, TLC picks the instance), each replayed on the real library under sampled configurations (cache, flush threshold, sync, backend, initial-version mode, key palette); after every step every read API of the working tree and of every retained version is compared with the specification's tree; non-trivial = contains a successful set and a successful commit; distinct = distinct operation sequences"
 	case "C02":
 		c.Classes = exec.Classes{Hash: true, ReadNoise: true}
@@ -189,6 +195,12 @@ func Build(id, tier string, seed int64) (*BehavCheck, error) {
 		c.Sim.Num = tierNum(tier, 12, 300)
 		c.Sim.Classes = []string{"set", "set", "set", "set", "set", "set", "rm", "rmhit", "rmhit", "rmhit", "save", "save", "rollback", "reopen", "reopen", "load", "lvfo", "delto", "import"}
 		c.Nontrivial = func(b *model.Behaviour) bool { return hasOps(b, "set", "save", "rm") }
+		c.PostRun = func(ev *Evidence) ([]string, []string, error) {
+			// reads and iteration after a rollback / index rebuild that crosses several 1024-key chunks
+			return runScenarios(id, seed, ev, map[string]func() string{
+				"chunked-rollback/mem/flush150": allScenarios["chunked-rollback/mem/flush150"],
+			}), nil, nil
+		}
 		c.Rule = "Iavl.tla behaviours (uncommitted additions, updates and removals between commits; reopen with the index on/off; loads of older versions); after every step, on the working state and every retained version: ImmutableTree.Iterator (index iterator at the latest version, tree walk otherwise), NewIterator (tree walk), MutableTree.Iterator (index + uncommitted changes), IterateRange, IterateRangeInclusive and Iterate with a stop at every position, for (start, end, direction) triples drawn from nil, empty, every stored key, every gap key, a prefix and an extension of a stored key (seeded sample per state in quick, larger in thorough); checked: exact sequence, values, Domain, Valid after exhaustion and after Close, Error, Close, stop position and return value; the definition of the expected range (RangeOf) is proved equal to the transcribed traversal algorithm by TLC (TreeTheorems T4)"
 	case "C11":
 		c.Classes = exec.Classes{Rank: true, Reads: true}
